@@ -444,8 +444,9 @@ def scenario(spec):
 def scen_term(spec):
     fault, pre, early = scenario(spec)
     ft = "None" if fault is None else "(mk_fault %s %s %s)" % (fault[0], fq.nat(fault[1]), fault[2])
+    # patch_num: whether a centre is left without any object is decided by the centres the k-means step produced
     return "(mk_scen %s %s %s %s %s %s)" % (fq.nat(nchunks(spec)), ft, pre, fq.b(spec["overwrite"]), fq.b(early),
-                                            fq.b(spec["empty_centre"]))
+                                            fq.b(spec["empty_centre"] or bool(spec.get("kmeans_empty"))))
 
 
 # ----------------------------------------------------------------------------- running one case
@@ -571,7 +572,7 @@ def run_one(workdir, idx, spec):
         if os.path.exists(out_path):
             o = json.load(open(out_path))
             res["class"] = o["outcome"]
-            res.update({k: o[k] for k in ("exc_type", "exc_msg", "records", "centers") if k in o})
+            res.update({k: o[k] for k in ("exc_type", "exc_msg", "records", "centers", "kmeans_centres") if k in o})
         else:
             res["class"] = "driver-error"
             res["detail"] = "driver exited (rc=%s) without a result: %s" % (p.returncode, open(log_path).read()[-1500:])
@@ -610,6 +611,34 @@ def expected_of(spec):
     for r, p in zip(rows, pids):
         part.setdefault(p, []).append(r)
     return sorted(rows), {p: sorted(v) for p, v in part.items()}
+
+
+def kmeans_empty_centre(spec, centres_hex):
+    """patch_num: does the set of centres the k-means step produced hold a centre without any object (a non-finite
+    centre, or one no record is nearest to)?  -> (True | False | None when that hinges on a near-tie, description)"""
+    cen = np.array([[float.fromhex(a), float.fromhex(b)] for a, b in centres_hex], dtype="f8")
+    bad = [int(k) for k in np.flatnonzero(~np.isfinite(cen).all(axis=1))]
+    rows, _ = expected_of(spec)
+    pts = np.array([[float.fromhex(r[0]), float.fromhex(r[1])] for r in rows], dtype="f8")
+    pts = pts[np.isfinite(pts).all(axis=1)]
+
+    def xyz(a):
+        return np.stack([np.cos(a[:, 1]) * np.cos(a[:, 0]), np.cos(a[:, 1]) * np.sin(a[:, 0]), np.sin(a[:, 1])], axis=1)
+
+    good = [k for k in range(len(cen)) if k not in bad]
+    if bad:
+        return True, "centres %s are not finite" % bad
+    d2 = ((xyz(pts)[:, None, :] - xyz(cen)[None, :, :]) ** 2).sum(axis=2)
+    order = np.sort(d2, axis=1)
+    sure = (order[:, 1] - order[:, 0]) > 1e-9 if len(good) > 1 else np.ones(len(pts), bool)
+    owner = d2.argmin(axis=1)
+    surely_owned = set(int(k) for k in owner[sure])
+    maybe_owned = set(int(k) for k in owner)
+    if len(surely_owned) == len(cen):
+        return False, "every centre is the nearest one of some record"
+    if len(maybe_owned) < len(cen) and sure.all():
+        return True, "no record is nearest to centres %s" % sorted(set(range(len(cen))) - maybe_owned)
+    return None, "near-tie between centres"
 
 
 def classify_return(spec, res):
@@ -758,6 +787,8 @@ def describe(spec):
         parts.append("fault=%s col=%s chunk=%d/%d" % (f["kind"], f["col"], f["chunk"], nchunks(spec)))
     if spec["empty_centre"]:
         parts.append("a centre without any object")
+    if spec.get("kmeans_empty"):
+        parts.append("the k-means step left a centre without any object (%s)" % spec.get("kmeans_note"))
     parts.append("target=%s overwrite=%s" % (spec["pre"], spec["overwrite"]))
     o = spec["opts"]
     parts.append("progress=%s degrees=%s chunksize keyword=%s%s" % (
@@ -789,11 +820,20 @@ def _run(ctx):
     ctx.log("runs done")
     terms, meta = [], []
     for idx, (spec, res) in enumerate(zip(cases, results)):
-        key = tuple(sorted((k, json.dumps(v, sort_keys=True)) for k, v in spec.items() if k not in ("cache", "dseed", "nthreads", "twin_of")))
+        key = tuple(sorted((k, json.dumps(v, sort_keys=True)) for k, v in spec.items() if k not in ("cache", "dseed", "nthreads", "twin_of", "kmeans_empty", "kmeans_note")))
         if res["class"] == "driver-error":
             ctx.count(key=key, nontrivial=False, kind="driver-error")
             ctx.obligation("driver:case_%03d" % idx, False, res.get("detail", ""))
             continue
+        if spec["patch"] == "num" and res.get("kmeans_centres") is not None:
+            ke, ke_how = kmeans_empty_centre(spec, res["kmeans_centres"])
+            ctx.bump("patch_num k-means: " + ("near-tie between centres, case skipped" if ke is None else
+                                              "left a centre without any object" if ke else "gave every centre an object"))
+            if ke is None:       # cannot tell which scenario this run belongs to
+                ctx.count(key=key, nontrivial=False, kind="skipped/patch_num near-tie")
+                continue
+            spec["kmeans_empty"] = ke
+            spec["kmeans_note"] = ke_how
         untouched = res["before"] == res["after"]
         opens, opens_how = opens_as_catalog(spec["cache"])
         obs_kind = None
